@@ -69,6 +69,7 @@ import (
 	"time"
 
 	"github.com/ipfs/boxo/bitswap"
+	bsmsg "github.com/ipfs/boxo/bitswap/message"
 	testinstance "github.com/ipfs/boxo/bitswap/testinstance"
 	tn "github.com/ipfs/boxo/bitswap/testnet"
 	"github.com/ipfs/boxo/exchange"
@@ -76,6 +77,8 @@ import (
 	blocks "github.com/ipfs/go-block-format"
 	cid "github.com/ipfs/go-cid"
 	delay "github.com/ipfs/go-ipfs-delay"
+	p2ptestutil "github.com/libp2p/go-libp2p-testing/netutil"
+	peer "github.com/libp2p/go-libp2p/core/peer"
 	"pgregory.net/rapid"
 	"verif/kit"
 )
@@ -409,27 +412,59 @@ const maxPhase = 7
 type outcome struct {
 	violation string // safety violation: verdict at once
 	suspect   string // timing-dependent finding: needs confirmation
-	// the suspicion is a lingering want and every lingering block had been delivered to every
-	// request that asked for it
-	lingerOnlyDelivered bool
-	// ... and every lingering CID was (also) reported by GetWantlist(), sampled after
-	// GetWantBlocks() / GetWantHaves()
-	lingerAllInWantlist bool
-	// the suspicion is a lingering want, some lingering CID was outstanding when its request
-	// was cancelled, and: every such CID is reported as a want-have only (not by GetWantBlocks),
-	// and the probe (a throw-away request for the lingering CIDs, cancelled again) cleared them
-	// from the list for good, also across another two periods of the session timers: a one-off
-	// stale entry that no session owns or re-lists
-	lingerOutstanding   bool
-	lingerDelivered     bool // some lingering CID had been delivered to every asker
-	lingerOutstHaveOnly bool
-	lingerOwnerless     bool
-	missingReq          int // index of the request with a missing delivery, else -1
+	// the suspicion is a lingering want and it has the observable shape of an open finding
+	// (see the comment on the keys below): lingerKnown names that finding, else ""
+	lingerKnown string
+	missingReq  int // index of the request with a missing delivery, else -1
+	// the suspicion is a missing delivery and it has the observable shape of an open finding
+	missingKnown string
 	// requests that ended without all their blocks because the shared context of their cancel
 	// group was cancelled
 	groupCancelled map[int]bool
 	nt             bool
 	classes        []string
+}
+
+// nodeTracer records, for one node, the blocks that arrived in bitswap messages (bitswap.WithTracer,
+// the public tap on all messages of a node): for every CID the step (round * phases + phase) and
+// the time of the latest arrival. A tap, not a hook: the messages are not touched.
+type nodeTracer struct {
+	mu   sync.Mutex
+	step int
+	last map[cid.Cid]arrival
+}
+
+type arrival struct {
+	step int
+	at   time.Time
+}
+
+func (t *nodeTracer) MessageReceived(_ peer.ID, m bsmsg.BitSwapMessage) {
+	bs := m.Blocks()
+	if len(bs) == 0 {
+		return
+	}
+	now := time.Now()
+	t.mu.Lock()
+	for _, b := range bs {
+		t.last[b.Cid()] = arrival{t.step, now}
+	}
+	t.mu.Unlock()
+}
+
+func (t *nodeTracer) MessageSent(peer.ID, bsmsg.BitSwapMessage) {}
+
+func (t *nodeTracer) setStep(step int) {
+	t.mu.Lock()
+	t.step = step
+	t.mu.Unlock()
+}
+
+func (t *nodeTracer) latest(k cid.Cid) (arrival, bool) {
+	t.mu.Lock()
+	defer t.mu.Unlock()
+	a, ok := t.last[k]
+	return a, ok
 }
 
 func valid(c Case) bool {
@@ -497,13 +532,26 @@ func attempt(c Case, allowance time.Duration) outcome {
 	if c.RebroadcastMs > 0 {
 		opts = append(opts, bitswap.RebroadcastDelay(time.Duration(c.RebroadcastMs)*time.Millisecond))
 	}
-	ig := testinstance.NewTestInstanceGenerator(net, router, nil, opts)
-	insts := ig.Instances(c.Nodes)
+	// the instances are built as testinstance.InstanceGenerator.Instances builds them, but each
+	// node gets its own message tap (bitswap.WithTracer) that records which blocks arrived
+	instCtx, instCancel := context.WithCancel(context.Background())
+	insts := make([]testinstance.Instance, 0, c.Nodes)
+	tracers := make([]*nodeTracer, c.Nodes)
+	for n := 0; n < c.Nodes; n++ {
+		id, err := p2ptestutil.RandTestBogusIdentity()
+		if err != nil {
+			panic(err)
+		}
+		tracers[n] = &nodeTracer{last: map[cid.Cid]arrival{}}
+		nopts := append(append([]bitswap.Option(nil), opts...), bitswap.WithTracer(tracers[n]))
+		insts = append(insts, testinstance.NewInstance(instCtx, net, router.Client(id), id, nil, nopts))
+	}
+	testinstance.ConnectInstances(insts)
 	defer func() {
 		for _, in := range insts {
 			in.Exchange.Close()
 		}
-		ig.Close()
+		instCancel()
 	}()
 	root, cancelRoot := context.WithCancel(context.Background())
 	defer cancelRoot()
@@ -576,6 +624,8 @@ func attempt(c Case, allowance time.Duration) outcome {
 		}
 	}
 	start := time.Now()
+	issued := map[int]time.Time{} // per request: when it was handed to the exchange (latest round)
+	var missingKeys []int         // the blocks request o.missingReq did not receive
 	lastPhase := 0
 	for _, q := range c.Reqs {
 		if q.Phase > lastPhase {
@@ -603,6 +653,9 @@ func attempt(c Case, allowance time.Duration) outcome {
 		ctx, cancel := context.WithCancel(parent)
 		defer cancel()
 		defer noteEnd(q.Node, want, got)
+		mu.Lock()
+		issued[ri] = time.Now() // just before the request is handed to the exchange
+		mu.Unlock()
 		defer func() {
 			if grouped && parent.Err() != nil && len(got) < len(want) {
 				mu.Lock()
@@ -659,6 +712,12 @@ func attempt(c Case, allowance time.Duration) outcome {
 			case <-time.After(allowance):
 				if q.Cancel < 0 && avail[q.Keys[0]] && ctx.Err() == nil {
 					setSuspect("request %d: GetBlock(%d) on node %d did not return within %v although node(s) %v hold the block", ri, q.Keys[0], q.Node, allowance, c.Place[q.Keys[0]])
+					mu.Lock()
+					if o.missingReq < 0 {
+						o.missingReq = ri
+						missingKeys = []int{q.Keys[0]}
+					}
+					mu.Unlock()
 				} else {
 					setSuspect("request %d: GetBlock(%d) on node %d did not return within %v after its context was cancelled", ri, q.Keys[0], q.Node, allowance)
 				}
@@ -747,6 +806,7 @@ func attempt(c Case, allowance time.Duration) outcome {
 					mu.Lock()
 					if o.missingReq < 0 {
 						o.missingReq = ri
+						missingKeys = missing
 					}
 					mu.Unlock()
 				}
